@@ -1329,7 +1329,12 @@ impl Drop for Debugger {
 /// Read N bytes from `PID` process.
 pub fn read_memory_by_pid(pid: Pid, addr: usize, read_n: usize) -> Result<Vec<u8>, nix::Error> {
     let mut read_reminder = read_n as isize;
-    let mut result = Vec::with_capacity(read_n);
+    // `read_n` may be taken from a user request or from the debugee memory,
+    // a size that can't be allocated must not abort the debugger
+    let mut result = Vec::new();
+    result
+        .try_reserve_exact(read_n)
+        .map_err(|_| nix::Error::ENOMEM)?;
 
     let single_read_size = mem::size_of::<c_long>();
 
